@@ -14,6 +14,9 @@ RULE = ("random scenes with partial coverage (sloped grid polygons, masks with r
 def concrete(sr, i, k, c, op):
     if c.get("formula", 0) > 0:
         return "a pixel's new value is not the blend formula of its own inputs for any coverage"
+    if c.get("frame", 0) > 0:
+        # coverage (or clip coverage) zero: the formula leaves the pixel as it was
+        return "a pixel with zero coverage changed: its new value is not the formula of its own inputs"
     return None
 
 
